@@ -53,6 +53,15 @@ def one(typ, seed):
         ans, exc = guarded(lambda: mk.apply_command(cmd, args), 60)
         if exc != "none":
             return finish("generator", "", exc)
+        if seed % 3 == 1:
+            # history: the same checker is first given an empty, a garbled and a truncated answer (a student's earlier
+            # attempts; what it says about them is C12's business) - then the library's own answer
+            for bogus in ("", "@@ -> ( $", ans[: len(ans) // 2]):
+                try:
+                    chk.run_checker(checker, *mkargs(bogus))
+                except Exception:
+                    pass
+            ref["after_wrong_attempts"] = 1
         v, cex, exc, out = chk.run_checker(checker, *mkargs(ans))
         ref["answer"] = ab.enc(ans)[:400]
         return finish(v, out, exc)
@@ -207,7 +216,8 @@ MODELS = {"quick": _M, "thorough": _M}
 RULE = ("21 exercise types x seeded random references (DFAs with 1-4 states over {a},{a,b},{a,b,c},{0,1}; NFAs; "
         "non-degenerate simple-format grammars; regexps) + every shipped example file: the answer text is produced by "
         "notebooks/make_notebook.apply_command on a temporary reference file and handed to the checker exactly as the "
-        "notebook template does; non-trivial = reference with >= 2 states / rules; distinct = distinct (type, reference)")
+        "notebook template does; every third instance first submits an empty, a garbled and a truncated answer to the same "
+        "checker (earlier attempts), then the own answer; non-trivial = reference with >= 2 states / rules; distinct = distinct (type, reference)")
 
 
 def nontrivial(e):
